@@ -1,7 +1,127 @@
-/- Line-protocol engine for C07 — stub, to be filled in. -/
-import CV.Proto
+/-
+Line-protocol engine for C07 (catalog integrity). See go/overlay/internal/verifharness/c07.
+
+Operations (tokens separated by single spaces; strings as CV.encS tokens):
+  reset
+  reg <idx> <peer> <node> <nodeid> <addr> <svc|-> <checks>
+        svc    = id;name;port;kind;native;dest;ups;weights        ups = a+b+… | -
+        checks = comma list of node;id;status;svcid;type;sessname;output
+  dereg <idx> <peer> <node> <svcid> <chkid>
+  coord <idx> <node;segment;val,…>
+  sysmeta <idx> <key> <val|!>                                     ! = delete
+  cfgset <idx> <kind> <name> <dest> <tok> | cfgdel <idx> <kind> <name>
+  xtxn <idx> <op,op,…>    op = the ops of StoreCore's `txn` | S;verb;node;id;name;port;kind;native;dest;ups;weights;modidx
+  every write command of CV.Engine.StoreCore (kv, sc, sd, reg…, txn, …) — run on the local catalog
+  dump
+Every answer is computed by the model functions the theorems of CV.Props.C07 are about
+(`CV.Store.applyX`).
+-/
+import CV.Store.CatX
+import CV.Engine.StoreCore
 namespace CV.Engine.C07
-open CV
-def step (_ : Unit) (_toks : List String) : Unit × String := ((), "bad-op")
-def engine : Engine := { State := Unit, init := (), step := step }
+open CV CV.Store CV.Engine.StoreCore
+
+def parseKind : String → Option Kind
+  | "typical" => some .typical | "connect-proxy" => some .connectProxy | "mesh-gateway" => some .meshGateway
+  | "terminating-gateway" => some .terminatingGateway | "ingress-gateway" => some .ingressGateway
+  | "api-gateway" => some .apiGateway | _ => none
+
+def parseSvcReq (f : List String) (modidx : String) : Option SvcReq :=
+  match f with
+  | [id, name, port, kind, native, dest, ups, weights] => do
+    pure ⟨← decS id, ← decS name, ← port.toNat?, ← parseKind kind, ← decBool native, ← decS dest, ← parsePlus ups,
+          ← decBool weights, ← modidx.toNat?⟩
+  | _ => none
+
+def parseXSvc (t : String) : Option (Option SvcReq) :=
+  if t == "-" then some none else (parseSvcReq (t.splitOn ";") "0").map some
+
+def parseCoord (t : String) : Option CoordRow :=
+  match t.splitOn ";" with
+  | [node, seg, val] => do pure ⟨← decS node, ← decS seg, ← val.toNat?⟩
+  | _ => none
+
+def parseXTxnOp (t : String) : Option XTxnOp :=
+  match t.splitOn ";" with
+  | "S" :: verb :: node :: rest =>
+    match rest.reverse with
+    | modidx :: fields => do pure (.service (← parseCatVerb verb) (← decS node) (← parseSvcReq fields.reverse modidx))
+    | [] => none
+  | _ => (parseTxnOp t).map .base
+
+def parseXCmd : List String → Option (Nat × XCmd)
+  | ["reg", idx, peer, node, nodeid, addr, svc, checks] => do
+    let n ← decS node
+    pure (← idx.toNat?, .register ⟨← decS peer, ⟨n, ← decS nodeid, ← decS addr, 0, 0⟩, ← parseXSvc svc,
+                                   ← (decList checks).mapM parseChk⟩)
+  | ["dereg", idx, peer, node, svcid, chkid] => do
+    pure (← idx.toNat?, .deregister (← decS peer) (← decS node) (← decS svcid) (← decS chkid))
+  | ["coord", idx, us] => do pure (← idx.toNat?, .coords (← (decList us).mapM parseCoord))
+  | ["sysmeta", idx, key, val] => do
+    let v ← if val == "!" then some none else (decS val).map some
+    pure (← idx.toNat?, .sysmeta (← decS key) v)
+  | ["cfgset", idx, kind, name, dest, tok] => do
+    pure (← idx.toNat?, .configSet (← decS kind) (← decS name) (← decBool dest) (← decS tok))
+  | ["cfgdel", idx, kind, name] => do pure (← idx.toNat?, .configDelete (← decS kind) (← decS name))
+  | ["xtxn", idx, ops] => do pure (← idx.toNat?, .txn (← (decList ops).mapM parseXTxnOp))
+  | toks => (parseCmd toks).map fun (i, c) => (i, .store c)
+
+/-! ### canonical dump -/
+
+def optNat : Option Nat → String
+  | some n => encNat n
+  | none => "-"
+
+/-- catalogs in dump order: the local one (peer name empty), then the peers by key -/
+def cats (s : XState) : List (String × Cat) := ("", s.loc) :: s.peers
+
+def showXNode (p : String) (n : Node) : String := semi [encS p, showNode n]
+
+def showXSvc (p : String) (r : Svc × SvcX) : String :=
+  semi [encS p, encS r.1.node, encS r.1.id, encS r.1.name, encNat r.1.port, r.2.kind.name, encBool r.2.native,
+        encS r.2.dest, plusList (r.2.ups.map encS), optNat r.2.vip, encNat r.1.create, encNat r.1.modify]
+
+def showXChk (p : String) (c : Chk) : String :=
+  semi [encS p, encS c.node, encS c.id, encS c.status, encS c.svcId, encS c.svcName, encNat c.create, encNat c.modify]
+
+/-- rows of the local index table the base model maintains, minus the `service_kind.*` rows -/
+def localIndexRows (ix : List (String × Nat)) : List (String × Nat) :=
+  ix.filter fun r => r.1.startsWith "peer.~:" && !r.1.startsWith "peer.~:service_kind."
+
+def dump (s : XState) : String :=
+  let cs := cats s
+  unwords [
+    "nodes=" ++ encList (cs.flatMap fun (p, c) => c.st.nodes.map (showXNode p)),
+    "svcs=" ++ encList (cs.flatMap fun (p, c) => c.rows.map (showXSvc p)),
+    "nsvc=" ++ encNat ((cs.map fun (_, c) => c.st.svcs.length).sum),
+    "chks=" ++ encList (cs.flatMap fun (p, c) => c.st.chks.map (showXChk p)),
+    "coords=" ++ encList (s.coords.map fun c => semi [encS c.node, encS c.segment, encNat c.val]),
+    "sessions=" ++ encList (s.loc.st.sessions.map fun x => semi [encS x.id, encS x.node]),
+    "ksn=" ++ encList (s.kindNames.map fun r => semi [r.kind.name, encS r.name, encNat r.create, encNat r.modify]),
+    "vips=" ++ encList (s.vips.map fun r => semi [encS r.peer, encS r.name, encNat r.ip, encNat r.create, encNat r.modify]),
+    "free=" ++ optNat s.freeIP,
+    "counter=" ++ optNat s.counter,
+    "usage=" ++ encList (s.usage.map fun r => semi [encS r.id, encNat r.count, encNat r.index]),
+    "cfg=" ++ encList (s.cfg.map fun r => semi [encS r.kind, encS r.name, encBool r.dest, encNat r.create, encNat r.modify]),
+    "sysmeta=" ++ encList (s.sysMeta.map fun r => semi [encS r.1, encS r.2]),
+    "index=" ++ encList ((localIndexRows s.loc.st.index).map showIdx)]
+
+def showXResult : XResult → String
+  | .ok => "ok"
+  | .bool b => if b then "true" else "false"
+  | .err e => "err:" ++ e.name
+  | .txn rs [] => "ok:" ++ encList (rs.map showTxnRes)
+  | .txn _ es => "errs:" ++ encList (es.map fun (i, e) => encNat i ++ ":" ++ e.name)
+
+def step (s : XState) (toks : List String) : XState × String :=
+  match toks with
+  | ["reset"] => (XState.empty, "ok")
+  | ["dump"] => (s, dump s)
+  | _ =>
+    match parseXCmd toks with
+    | some (i, c) => let (s', r) := applyX s i c; (s', showXResult r)
+    | none => (s, "bad-op")
+
+def engine : Engine := { State := XState, init := XState.empty, step := step }
+
 end CV.Engine.C07
